@@ -2,7 +2,8 @@
    histogram, soft errors), ProofsAggs (aggregations), ProofsApi (API answer, replica orders),
    ProofsFetch / ProofsAlign (streams: soundness / completeness), ProofsDocs (Documents). *)
 From Coq Require Import List Bool Arith NArith ZArith Lia.
-From C16 Require Export Model CaseDefs ProofsSearch ProofsFetch ProofsAlign ProofsRest ProofsAggs ProofsApi ProofsDocs.
+From C16 Require Export Model ModelExt CaseDefs ProofsSearch ProofsFetch ProofsAlign ProofsRest ProofsAggs ProofsApi ProofsDocs
+  ProofsFds ProofsHistKeys ProofsPaging ProofsReservoir.
 Import ListNotations.
 
 Lemma hot_refuses_spec : forall mature oldest from,
@@ -50,3 +51,48 @@ Proof.
   destruct (verdict_of p1 p2 hot hotread cold), (search sort p1 p2 hot hotread cold off size rev itv naggs); auto.
   destruct H as [A [B [C D]]]. subst r. repeat split; auto; apply merge_rest_desc; auto.
 Qed.
+
+(* ---------------------------------------------------------------- extension: collected statements *)
+Lemma fetch_all_failed_is_error : forall req calls,
+  (fds req calls = FdErr <-> calls <> [] /\ Forall (fun c => snd c = FFail) calls)
+  /\ (calls_valid req calls = true -> (calls <> [] <-> req <> []))
+  /\ (calls_valid req calls = true -> req <> [] -> Forall (fun c => snd c = FFail) calls -> fds req calls = FdErr).
+Proof.
+  intros req calls. split; [apply fds_err_iff|]. split; [apply calls_valid_nonempty|]. apply fetch_all_failed.
+Qed.
+
+Lemma fetch_some_failed_is_empty_docs : forall req calls,
+  (exists s l, In (s, FStream l) calls) \/ calls = [] ->
+  exists out, fds req calls = FdOk out
+    /\ out = fetch req (live calls)
+    /\ length out = length req
+    /\ docs_sound req (live calls) out = true
+    /\ (NoDup (map fst calls) -> forall i k, nth_error req i = Some k -> In (snd k) (failed calls) ->
+          nth_error out i = Some (k, 0%N))
+    /\ (well_behaved req (live calls) = true -> out = map (expected_doc (live calls)) req).
+Proof.
+  intros req calls H.
+  assert (F : fds_fails calls = false).
+  { destruct (fds_fails calls) eqn:F; auto. apply fds_fails_iff in F. destruct F as [NE AF].
+    destruct H as [[s [l Hl]]|E0]; [|subst calls; congruence].
+    unfold all_fail in AF. rewrite Forall_forall in AF. specialize (AF _ Hl). discriminate. }
+  destruct (fetch_some_failed req calls F) as [out [A [B [C [D [_ [E G]]]]]]].
+  exists out. repeat split; auto.
+Qed.
+
+Lemma hist_keys_exact : forall sort, sort_ok sort -> forall qs xs rev itv naggs,
+  let h := x_hist (merge_rest sort qs xs rev itv naggs) in
+  let U := flat_map snd qs in
+  NoDup (map fst h)
+  /\ (forall k, In k (map fst h) <->
+        (exists x, In x xs /\ In k (map fst (x_hist x)))
+        \/ (itv <> 0%N /\ (exists i, In i U /\ bucket_of itv i = k) /\ reps_in_bucket itv U k <> 0%Z))
+  /\ (forall k, In k (map fst h) <-> In k (hist_keys_spec itv U xs)).
+Proof. intros sort Hs. exact (hist_keys_ok sort Hs). Qed.
+
+Lemma reservoir_below_bound : forall R next (h : scr R) x s r v,
+  ((N.of_nat (length (sc_samples (r_sc R h)) + length (sc_samples x)) <= max_samples)%N ->
+     scr_merge R next h x = mkScr R (sc_merge (r_sc R h) x) (r_rng R h))
+  /\ ((N.of_nat (length s) <= max_samples)%N ->
+      (N.of_nat (length (fst (insert_sample R next (s, r) v))) <= max_samples)%N).
+Proof. intros. split; [apply scr_merge_below | apply insert_sample_bound]. Qed.
